@@ -4,6 +4,7 @@ CONSTANTS
   DEV_MutateBeforeCheck = FALSE
   Level = 2
   Depth = 3
+  Cross = FALSE
 INIT Init
 NEXT Next
 CONSTRAINT Bound
